@@ -174,8 +174,15 @@ int main(int argc, char** argv) {
                 std::string c = std::string("draw ") + (repc ? "rep" : "50") + (with ? " " + san(g, m) : "");
                 cmd(c); M.claim(repc, with, m);
             } else if (a < 88 && !l.empty()) { ref::Mv m = randMove(); bool alive = M.state() == ALIVE; cmd("draw offer " + san(g, m)); if (alive) M.offer(m); }
-            else if (a < 93) { cmd("draw accept"); M.accept(); }
-            else if (a < 95) { cmd("resign"); M.resign(); }
+            else if (a < 92) { cmd("draw accept"); M.accept(); }
+            else if (a < 94) { cmd("resign"); M.resign(); }
+            else if (a < 95) { cmd("draw rep"); M.claim(true, false, ref::Mv()); rep.add("claims_without_a_move"); }   // a failed claim leaves an offer that is not attached to any move
+            else if (a < 97) {
+                // a new game in the middle of the old one: nothing of the old game (pending offer, claims, resignation) may survive
+                if (r.chance(50)) { cmd("new"); ref::Pos st; ref::parseFEN(ref::startFEN, st); M.reset(st); }
+                else { ref::Pos p2 = tricky[r.below((int)tricky.size())]; if (!ref::epLegal(p2)) p2.ep = -1; Position t2; if (readFEN(ref::toFEN(p2), t2)) { cmd("setpos " + ref::toFEN(p2)); M.reset(p2); } }
+                rep.add("new_games_mid_history");
+            }
             else { cmd("swap"); }
             compare(g, M, hist);
             if (rep.nViol > 10) break;
